@@ -957,6 +957,13 @@ CROSS_TARGETS = [
     ('s390x-unknown-linux-gnu', 'systemz', []),        # big-endian LP64
     ('m68k-unknown-linux-gnu', 'm68k', []),            # nothing aligned to more than 2 bytes
     ('msp430-none-elf', 'msp430', []),                 # 16-bit int and pointers (the A_SIZE_POINTER == 2 arms of a.h)
+    # this host's data model again under the predefines of common BUILD ENVIRONMENTS (CFLAGS of distribution packaging, the Android NDK toolchain file, size-
+    # optimised musl builds): macros such as _FORTIFY_SOURCE, __OPTIMIZE__, __OPTIMIZE_SIZE__, NDEBUG, __ANDROID__ are consulted by headers to change
+    # DECLARATIONS (seeded change C20-M: under clang with _FORTIFY_SOURCE a buffer parameter gets __attribute__((pass_object_size)), which appends a hidden
+    # size_t argument to the machine-level signature while the binding still passes three arguments)
+    ('x86_64-pc-linux-gnu', 'x86-64', ['-O2', '-D_FORTIFY_SOURCE=2', '-DNDEBUG', '-D_GNU_SOURCE', '-D_REENTRANT', '-fstack-protector-strong']),
+    ('x86_64-linux-android', 'x86-64', ['-Oz', '-D_FORTIFY_SOURCE=2', '-DANDROID', '-D__ANDROID_API__=24', '-DNDEBUG']),
+    ('x86_64-unknown-linux-musl', 'x86-64', ['-Os', '-D_FORTIFY_SOURCE=3', '-D_XOPEN_SOURCE=700', '-DNDEBUG']),
 ]
 
 # The Rust reference's target-independent definition of the primitive types, rendered in C with the compiler's own exact-width /
